@@ -38,12 +38,15 @@ ASSUMPTIONS = [
 SHARDS = {"quick": 4, "thorough": 16}
 BUDGET_S = {"quick": 80, "thorough": 800}
 FLOORS = {
-    "quick": {"c14.cases": 60, "c14.sort.evals": 2500, "c14.sort.nontrivial": 800, "c14.sort.multikey": 500, "c14.group.evals": 1200,
-              "c14.collapse.evals": 500, "c14.filter.evals": 800, "c14.page.evals": 800, "c14.len.evals": 4000,
-              "c14.layout.mixed_columns": 15, "c14.layout.multiseg_with_deletions": 10},
-    "thorough": {"c14.cases": 2000, "c14.sort.evals": 80000, "c14.sort.nontrivial": 25000, "c14.sort.multikey": 15000,
-                 "c14.group.evals": 40000, "c14.collapse.evals": 15000, "c14.filter.evals": 25000, "c14.page.evals": 25000,
-                 "c14.len.evals": 120000, "c14.layout.mixed_columns": 500, "c14.layout.multiseg_with_deletions": 300},
+    "quick": {"c14.cases": 80, "c14.sort.evals": 2200, "c14.sort.nontrivial": 1500, "c14.sort.multikey": 1000, "c14.group.evals": 1300,
+              "c14.collapse.evals": 1200, "c14.collapse.eliminating": 600, "c14.filter.evals": 1200, "c14.filter.empty_operand": 300,
+              "c14.page.evals": 1200, "c14.page.empty_results": 120, "c14.page.beyond_last": 500, "c14.len.evals": 7000,
+              "c14.layout.mixed_columns": 18, "c14.layout.added": 8, "c14.layout.multiseg_with_deletions": 20},
+    "thorough": {"c14.cases": 2500, "c14.sort.evals": 70000, "c14.sort.nontrivial": 50000, "c14.sort.multikey": 30000,
+                 "c14.group.evals": 40000, "c14.collapse.evals": 40000, "c14.collapse.eliminating": 20000, "c14.filter.evals": 40000,
+                 "c14.filter.empty_operand": 10000, "c14.page.evals": 40000, "c14.page.empty_results": 4000, "c14.page.beyond_last": 15000,
+                 "c14.len.evals": 240000, "c14.layout.mixed_columns": 600, "c14.layout.added": 300,
+                 "c14.layout.multiseg_with_deletions": 700},
 }
 
 WORDS = ["alfa", "bravo", "charlie", "delta"]
@@ -914,7 +917,7 @@ def check_pages(env, nviews):
 # ----------------------------------------------------------------------
 
 def run(ctx):
-    for idx in ctx.cases(quick=60, thorough=700):
+    for idx in ctx.cases(quick=60, thorough=500):
         rng = ctx.rng(idx)
         ctx.reseed_global(idx)
         case = Case(rng)
